@@ -401,7 +401,8 @@ PREAMBLE = ['units metal', 'atom_style atomic', 'boundary p p p', 'read_data ini
             'WARNING: No fixes with time integration, atoms won\'t move (src/verlet.cpp:60)',
             'WARNING: Using a manybody potential with bonds/angles/dihedrals and special_bond exclusions '
             '(src/pair.cpp:242)', '  using 1 OpenMP thread(s) per MPI task', 'Reading data file ...',
-            'velocity all create 300.0 12345', 'reset_timestep 0', 'dump 1 all custom 100 dump.* id x y z']
+            'velocity all create 300.0 12345', 'reset_timestep 0', 'dump 1 all custom 100 dump.* id x y z',
+            'print "built against LAMMPS (stable) headers"', '# LAMMPS (7 Aug 2019) was used for the first leg']
 SETUP = ['Setting up Verlet run ...', '  Unit style    : metal', '  Current step  : 0', '  Time step     : 0.001',
          'Neighbor list info ...', '  update every 1 steps, delay 10 steps, check yes',
          '  max neighbors/atom: 2000, page size: 100000', '  master list distance cutoff = 8.28721',
@@ -427,7 +428,15 @@ INSIDE_WARN = ['WARNING: foo', 'WARNING:', 'ERROR on proc 0:', 'WARNING: Bond/an
 
 
 def _float_token(rng: random.Random) -> str:
-    k = rng.randrange(12)
+    k = rng.randrange(14)
+    if k == 12:                # a hair away from an integer (a cast to an int column must not happen / must be seen)
+        n = rng.choice([0, 1, 4, 300, rng.randint(-5000, 5000)])
+        if rng.random() < 0.5:
+            return '%d.%s%d' % (n, '0' * rng.randint(5, 10), rng.randint(1, 9))
+        return '%d.%s' % (n, '9' * rng.randint(6, 12))
+    if k == 13:                # integers printed as floats / beyond 2^53
+        return rng.choice(['%d.0' % rng.randint(-999, 999), '%d.' % rng.randint(0, 99), '1e3', '2.5e2',
+                           str(rng.choice([2 ** 53 + 1, -2 ** 63 + 1, 2 ** 63 - 1, 10 ** 19, 123456789012345678]))])
     if k == 0:
         return '0'
     if k == 1:
@@ -487,35 +496,64 @@ class RunSpec:
         return [int(r[k]) for r in self.rows]
 
 
-def gen_run(rng, start, size, allow_dirty, era):
+def _near_int_token(rng):
+    n = rng.choice([0, 1, 4, 300, rng.randint(-5000, 5000)])
+    q = rng.random()
+    if q < 0.4:
+        return str(n)
+    if q < 0.7:
+        return '%d.%s%d' % (n, '0' * rng.randint(5, 10), rng.randint(1, 9))
+    return '%d.%s' % (n, '9' * rng.randint(6, 12))
+
+
+def gen_run(rng, start, size, allow_dirty, era, keys=None):
     r = RunSpec()
     r.banner = era[0]
-    ncols = rng.randint(1, 9)
-    keys = []
     pool = INT_KEYS + FLOAT_KEYS
-    while len(keys) < ncols:
-        k = rng.choice(pool)
-        if k not in keys:
-            keys.append(k)
-    p = rng.random()
-    if p < 0.9:
-        keys[0] = 'Step'
-    elif p < 0.97:
-        keys[rng.randrange(len(keys))] = 'Step'
+    if keys is not None:
+        # the same thermo_style as the run before (the usual case in a real log), sometimes one keyword more or less
+        keys = list(keys)
+        q = rng.random()
+        if q < 0.15 and len(keys) > 1:
+            del keys[rng.randrange(1, len(keys))]
+        elif q < 0.3:
+            k = rng.choice(pool)
+            if k not in keys:
+                keys.insert(rng.randint(1, len(keys)), k)
+    else:
+        ncols = rng.randint(1, 9)
+        keys = []
+        while len(keys) < ncols:
+            k = rng.choice(pool)
+            if k not in keys:
+                keys.append(k)
+        p = rng.random()
+        if p < 0.9:
+            keys[0] = 'Step'
+        elif p < 0.97 and 'Step' not in keys:
+            keys[rng.randrange(len(keys))] = 'Step'
+    ncols = len(keys)
     r.cols = keys
     r.kinds = ['int' if (k in INT_KEYS or k == 'Step') else 'float' for k in keys]
     n = rng.choice([0, 1, 1, 2, 2, 3, 4, 5, 6, 8, 11])
     if size == 'big':
         n = rng.randint(20, 80)
     dt = rng.choice([1, 5, 10, 10, 50, 100, 100, 1000, 250000])
+    # a float column of one run may happen to print integers only (pandas then types it int64 for that run) or
+    # values a hair away from integers
+    modes = [rng.choice(['mixed'] * 4 + ['intlike', 'nearint']) for _ in keys]
     rows = []
     for j in range(n):
         row = []
-        for k, kind in zip(keys, r.kinds):
+        for k, kind, mode in zip(keys, r.kinds, modes):
             if k == 'Step':
                 row.append(str(start + j * dt))
             elif kind == 'int':
                 row.append(str(rng.choice([0, 1, 4, 32, 108, 4000, rng.randint(-5, 10 ** 9)])))
+            elif mode == 'intlike':
+                row.append(str(rng.choice([0, 1, 300, rng.randint(-5000, 5000)])))
+            elif mode == 'nearint':
+                row.append(_near_int_token(rng))
             else:
                 row.append(_float_token(rng))
         rows.append(row)
@@ -649,8 +687,10 @@ def gen_log(rng, nruns=None, size='small', allow_dirty=False, allow_backward=Tru
     prev = None
     # one LAMMPS version per file: old banner + old timing lines, old banner + MPI breakdown, or new + new
     era = rng.choice([('old', 'old'), ('old', 'new'), ('new', 'new'), ('new', 'new')])
+    same_style = rng.random() < 0.6
     for k in range(nruns):
-        r, dt = gen_run(rng, start, size, allow_dirty, era)
+        keys = S.runs[-1].cols if (S.runs and same_style and rng.random() < 0.85) else None
+        r, dt = gen_run(rng, start, size, allow_dirty, era, keys)
         S.runs.append(r)
         if r.inside:
             S.dirty = True
@@ -714,7 +754,9 @@ def canon_value(v):
     """cell of a pandas DataFrame -> same canonical domain."""
     import numpy as np
     if isinstance(v, str):
-        return canon_token(v)
+        # a whitespace-separated field is never empty: '' is how pandas shows a missing field of a column it kept
+        # as text (e.g. an integer beyond 64 bits next to a short junk line)
+        return canon_token(v) if v != '' else NAN
     if v is None:
         return NAN
     if isinstance(v, (bool, np.bool_)):
@@ -1100,7 +1142,7 @@ def compare_history(impl_out, replies):
 def correspond(ctx):
     cm.build_tree()
     rng = ctx.rng
-    N = ctx.n(220, 4000)
+    N = ctx.n(450, 4000)
     files = _Files()
     try:
         hist = []
@@ -1131,6 +1173,8 @@ def correspond(ctx):
                 k, what = bad
                 ctx.disagree('history:' + ops[k][0], f'op {k} {ops[k]}: {what}',
                              {'op': 'history', 'logs': logs, 'ops': ops, 'failed_op': k, 'what': what})
+                if len(ctx.disagreements) >= 50:      # nothing more is recorded: the tie is broken, stop here
+                    break
         ctx.extra['histories'] = len(hist)
         ctx.extra['histories_ending_in_error'] = nerr
     finally:
@@ -1301,22 +1345,34 @@ def check_history_clauses(logs, ops, impl_out):
 def search(ctx, broken):
     cm.build_tree()
     rng = random.Random(ctx.seed * 7919 + 19)
-    N = ctx.n(260, 3000) * (3 if broken else 1)
+    N = ctx.n(550, 3000) * (3 if broken else 1)
     files = _Files()
+    shrunk = set()
+    # other Log objects already lived in this process (correspond): in a replay a canned one stands for them
+    prev = {'logs': [{'text': 'Memory usage per processor = 2.5 Mbytes\nStep Temp\n0 1.5\n10 2.5\nLoop time of 1\n'}],
+            'ops': [['ctor', 0, 'text'], ['read', 0, True, 'text']]}
     try:
         for it in range(N):
             size = 'big' if it % 50 == 49 else 'small'
             logs, ops = gen_history(rng, allow_dirty=False, size=size, allow_backward=(it % 5 == 4))
+            logs0, ops0 = logs, ops
             impl_out = run_impl(logs, ops, files)
             bad = check_history_clauses(logs, ops, impl_out)
             nruns = sum(len(l['expect']['runs']) for l in logs)
             ctx.stats.case('oracle:history', [l['text'] for l in logs] + [ops], nontrivial=nruns > 0)
             if bad:
                 key, what = bad
-                logs, ops = _shrink(logs, ops, key, files)
-                impl_out = run_impl(logs, ops, files)
-                what = (check_history_clauses(logs, ops, impl_out) or (key, what))[1]
-                ctx.violate(key, what, {'op': 'history', 'logs': logs, 'ops': ops})
+                if key not in shrunk:                 # one minimised replay per clause is enough
+                    shrunk.add(key)
+                    logs, ops = _shrink(logs, ops, key, files)
+                    impl_out = run_impl(logs, ops, files)
+                    what = (check_history_clauses(logs, ops, impl_out) or (key, what))[1]
+                # `prelude`: the history executed just before in this process (state leaking from one Log object
+                # into the next, e.g. a shared default list, needs it to reproduce in a fresh process)
+                ctx.violate(key, what, {'op': 'history', 'logs': logs, 'ops': ops, 'prelude': prev})
+                if len(ctx.violations) >= 50:
+                    break
+            prev = {'logs': logs0, 'ops': ops0}
     finally:
         files.close()
 
@@ -1348,6 +1404,8 @@ def replay(ctx, payload):
     logs, ops = r['logs'], [list(o) for o in r['ops']]
     files = _Files()
     try:
+        if r.get('prelude'):
+            run_impl(r['prelude']['logs'], [list(o) for o in r['prelude']['ops']], files)
         impl_out = run_impl(logs, ops, files)
         for op, res in zip(ops, impl_out):
             print('replay', op, '->', res[0], (res[2] if res[0] == 'err' else ''))
